@@ -103,7 +103,7 @@ func rulePsyncWire(w *core.World, r *core.Report) {
 		bad := ""
 		n := 0
 		isWaiter := isResultOf("(*pkg/redis.StandaloneRedis).SendPSync", 2)
-		core.EnumPathsN(g.Blocks[0], 0, 10000, 2, func(p *core.Path) {
+		core.EnumPathsN(g.Blocks[0], 0, 10000, core.Unroll, func(p *core.Path) {
 			ret, ok := p.End.(*ssa.Return)
 			if !ok || len(ret.Results) != 4 || !core.IsNilConst(p.Resolve(ret.Results[3])) {
 				return
